@@ -49,10 +49,11 @@ PROPS['C19'] = dict(
 
 PROPS['C20'] = dict(
     props='props/C20.v',
-    models=['Dex', 'DexCheck', 'Ledger'],
+    models=['Dex', 'DexCheck', 'Ledger', 'DexBatch'],
     harness='c20',
-    args=dict(quick=['-fn', '600', '-swap', '200', '-withdraw', '200', '-deposit', '200'],
-              thorough=['-fn', '6000', '-swap', '3000', '-withdraw', '3000', '-deposit', '3000']),
+    args=dict(quick=['-fn', '600', '-swap', '200', '-withdraw', '200', '-deposit', '200', '-merge', '40'],
+              escalated=['-fn', '1500', '-swap', '600', '-withdraw', '600', '-deposit', '600', '-merge', '150'],
+              thorough=['-fn', '6000', '-swap', '3000', '-withdraw', '3000', '-deposit', '3000', '-merge', '300']),
     fingerprint_groups=['Dex'],
     rule='(fn) the generated SafeComputeDY/SafeMulDiv/SqrtProductUint64/percent helpers evaluated in Coq and in Go on amounts from '
          '{0,1,small,2^32,2^63,2^64-k,random}; (swap) the real HandleDexBatchOrders on a real FSM with reserves from {1,small,2^32,2^62,2^64-k,typical}, '
